@@ -23,6 +23,10 @@ type Registry struct {
 	Components map[string][2][]string // scenario -> {real, stub}
 	Assumptions map[string][]string  // property -> assumptions text
 	MinProbes map[string][]string    // property -> probes that must be > 0 in a full tier (reach self-check)
+	// UnstableSUT lists properties whose violation IS nondeterminism of the code under test (C14): one
+	// execution of a failing plan shows the divergence only with some probability, so shrinking and
+	// replay re-execute a plan several times and the fingerprint equality of two replays is not required.
+	UnstableSUT map[string]int // property -> attempts
 }
 
 type runLine struct {
@@ -260,7 +264,11 @@ func Check(reg *Registry, property, tier, verifDir string) int {
 		f := fresh[0]
 		fmt.Printf("violation in run %d of %s (seed %d): %s %s %s: %s\n", f.line.I, f.line.Scenario, f.line.Seed, f.v.Property, f.v.Oracle, f.v.Key, f.v.Detail)
 		sc := reg.Scenarios[f.line.Scenario]
-		min := Shrink(sc, *f.line.Plan, f.v.Class(), 6*time.Minute)
+		shrinkCap := 3 * time.Minute
+		if tier == "thorough" {
+			shrinkCap = 8 * time.Minute
+		}
+		min := Shrink(sc, *f.line.Plan, f.v.Class(), shrinkCap, reg.UnstableSUT[property])
 		os.MkdirAll(filepath.Join(verifDir, "replays"), 0o755)
 		replayPath = filepath.Join(verifDir, "replays", fmt.Sprintf("%s-%d-%d.json", property, base, f.line.I))
 		rf := ReplayFile{Property: property, Class: f.v.Class(), Seed: f.line.Seed, RunIndex: f.line.I, Plan: min, Detail: f.v.Detail}
@@ -280,7 +288,7 @@ func Check(reg *Registry, property, tier, verifDir string) int {
 			}
 			hashes = append(hashes, m[2])
 		}
-		if exit == 0 && hashes[0] != hashes[1] {
+		if exit == 0 && hashes[0] != hashes[1] && reg.UnstableSUT[property] == 0 {
 			fmt.Fprintf(os.Stderr, "HARNESS: replay fingerprints differ (%s vs %s): harness nondeterminism\n", hashes[0], hashes[1])
 			exit = 2
 		}
@@ -480,12 +488,17 @@ func Replay(reg *Registry, path string, quiet bool) int {
 		return 2
 	}
 	res := ExecPlan(sc, rf.Plan, !quiet)
+	rep := hasClass(res, rf.Class)
+	for k := 1; k < reg.UnstableSUT[rf.Property] && !rep && res.Harness == ""; k++ {
+		res = ExecPlan(sc, rf.Plan, !quiet)
+		rep = hasClass(res, rf.Class)
+		fmt.Printf("attempt %d: reproduced=%v\n", k+1, rep)
+	}
 	if !quiet {
 		for _, l := range res.Log {
 			fmt.Println(l)
 		}
 	}
-	rep := hasClass(res, rf.Class)
 	fmt.Printf("REPLAY class=%s log_hash=%s reproduced=%v\n", rf.Class, res.LogHash, rep)
 	if res.Harness != "" {
 		fmt.Fprintf(os.Stderr, "HARNESS: %s\n", res.Harness)
@@ -500,14 +513,25 @@ func Replay(reg *Registry, path string, quiet bool) int {
 
 // Shrink minimises the op list (truncate, ddmin chunks, single ops) and then the configuration, keeping
 // a candidate only if the same violation class recurs.
-func Shrink(sc Scenario, p Plan, class string, maxWall time.Duration) Plan {
+func Shrink(sc Scenario, p Plan, class string, maxWall time.Duration, attempts int) Plan {
 	deadline := time.Now().Add(maxWall)
+	if attempts < 1 {
+		attempts = 1
+	}
 	fails := func(q Plan) bool {
-		if time.Now().After(deadline) {
-			return false
+		for k := 0; k < attempts; k++ {
+			if time.Now().After(deadline) {
+				return false
+			}
+			res := ExecPlan(sc, q, false)
+			if res.Harness != "" {
+				return false
+			}
+			if hasClass(res, class) {
+				return true
+			}
 		}
-		res := ExecPlan(sc, q, false)
-		return res.Harness == "" && hasClass(res, class)
+		return false
 	}
 	cur := p.Clone()
 	if !fails(cur) {
